@@ -517,3 +517,10 @@ VARIANTS += [
     V("C07", "benign: matched entries removed from a copy of the list", VIS, "            matched_docstrings: list[ResultDocstring] = []\n            for type_ in return_results:\n                result_docstring = ResultDocstring()\n                for docstring in result_docstrings:\n                    if hash(docstring.type) == hash(type_) and not any(docstring is matched for matched in matched_docstrings):\n                        result_docstring = docstring\n                        matched_docstrings.append(docstring)\n                        break",
       "            result_docstrings = list(result_docstrings)\n            for type_ in return_results:\n                result_docstring = ResultDocstring()\n                for docstring in result_docstrings:\n                    if hash(docstring.type) == hash(type_):\n                        result_docstring = docstring\n                        result_docstrings.remove(docstring)\n                        break", None),
 ]
+VARIANTS += [
+    V("C05", "containers recognised by their bare name", VIS, "            if is_builtin_class and type_name in {\"tuple\", \"list\", \"set\", \"Sequence\", \"Collection\"}:", "            if type_name in {\"tuple\", \"list\", \"set\", \"Sequence\", \"Collection\"}:", "C05.CTOR-TABLE"),
+    V("C05", "benign: defining module compared with a set", VIS, "            is_builtin_class = mypy_type.type.fullname.startswith((\"builtins.\", \"typing.\"))", "            is_builtin_class = mypy_type.type.module_name in {\"builtins\", \"typing\"}", None),
+]
+VARIANTS += [
+    V("C07", "coroutine wrapper translated as the return type", VIS, "                if (\n                    node.is_coroutine\n                    and isinstance(node_ret_type, mp_types.Instance)\n                    and node_ret_type.type.fullname == \"typing.Coroutine\"\n                    and len(node_ret_type.args) == 3\n                ):\n                    node_ret_type = node_ret_type.args[2]\n", "", "C07.COROUTINE"),
+]
